@@ -244,6 +244,10 @@ func (a RuneSet) includes(b RuneSet) bool {
 	bi, ai := 0, 0 // index in b and a
 	for bi < len(b) && ai < len(a) {
 		bEntry, aEntry := b[bi], a[ai]
+		if bEntry.set == (pageSet{}) { // empty pages are left by Delete
+			bi++
+			continue
+		}
 		// Check matching pages
 		if bEntry.ref == aEntry.ref {
 			if ok := aEntry.set.includes(bEntry.set); !ok {
@@ -261,8 +265,13 @@ func (a RuneSet) includes(b RuneSet) bool {
 			}
 		}
 	}
-	//  did we look at every page?
-	return bi >= len(b)
+	// did we look at every page ? the remaining ones must be empty
+	for ; bi < len(b); bi++ {
+		if b[bi].set != (pageSet{}) {
+			return false
+		}
+	}
+	return true
 }
 
 // Len returns the number of runes in the set.
